@@ -13,7 +13,8 @@ for dir in "$VERIF"/benign/*/; do
   [ -f "$dir/patch.diff" ] || continue
   id="$(basename "$dir")"
   match=0; for p in "${pats[@]}"; do case "$id" in $p) match=1;; esac; done; [ $match = 1 ] || continue
-  rm -rf "$W/repo"; mkdir -p "$W/repo"; (cd /repo && git archive HEAD) | tar -x -C "$W/repo"
+  base="$(jq -r '.base_commit // "HEAD"' "$dir/meta.json" 2>/dev/null)"; [ -n "$base" ] || base=HEAD
+  rm -rf "$W/repo"; mkdir -p "$W/repo"; (cd /repo && git archive "$base") | tar -x -C "$W/repo"
   (cd "$W/repo" && patch -p1 -s < "$dir/patch.diff") || { echo "$id PATCH-DOES-NOT-APPLY"; bad=$((bad+1)); continue; }
   if (cd "$W/repo" && go test -vet=off -count=1 ./... >"$W/suite.log" 2>&1); then suite=pass; else suite=FAIL; fi
   codes=""; ok=1
